@@ -26,7 +26,7 @@ def build_alloc(sym, sh):
                 shape.append(n)
             rt.append(n)
         op = memref.AllocOp.get(IntegerType(bits), 64, shape, dyn_sizes, NoneAttr(), StringAttr("L1"))
-        return op, None, rt, bits // 8
+        return op, None, rt, (bits + 7) // 8
     tsl = mk_tsl(sym, sh["rank"], sh["depth"], sh["dyn"])
     shape, rt, dyn_sizes = [], [], []
     for d in range(sh["rank"]):
@@ -43,11 +43,12 @@ def build_alloc(sym, sh):
             shape.append(outer * inner)
             rt.append(outer * inner)
     op = memref.AllocOp.get(IntegerType(bits), 64, shape, dyn_sizes, TiledStridedLayoutAttr(tsl), StringAttr("L1"))
-    return op, tsl, rt, bits // 8
+    return op, tsl, rt, (bits + 7) // 8
 
 
 ALLOC_SHAPES = ([dict(layout="none", rank=r, depth=0, dyn=v, bits=b) for r in (1, 2, 3, 4) for v in ("static", "dyn0") for b in (8, 32)]
-                + [dict(layout="tsl", rank=r, depth=d, dyn=v, bits=b) for r in (1, 2) for d in (1, 2, 3) for v in DYN for b in (8, 32, 64) if r * d <= 4])
+                + [dict(layout="tsl", rank=r, depth=d, dyn=v, bits=b) for r in (1, 2) for d in (1, 2, 3) for v in DYN for b in (8, 32, 64) if r * d <= 4]
+                + [dict(layout=l, rank=1, depth=(0 if l == "none" else 1), dyn="static", bits=b) for l in ("none", "tsl") for b in (1, 12)])
 
 
 @contract
@@ -109,6 +110,48 @@ class AllocOpRewrite_contract:
 
     def canary(sh, a, ret):
         check("canary: allocation is a single element", den(ret["allocs"][0].size) == a[3])
+
+
+# ---- the same postcondition when the size computation consults the layout's own predicates ----------------------
+from pyvc.api import assume, fresh_int  # noqa: E402
+
+
+def _extent(tsl):
+    """highest offset-free address + 1 and number of elements of a static layout"""
+    hi, n = 0, 1
+    for ts in tsl.tstrides:
+        for st in ts.strides:
+            hi = hi + (st.bound - 1) * st.step
+            n = n * st.bound
+    return hi, n
+
+
+def is_dense_contract(local):
+    """TiledStridedLayout.is_dense through its contract (bounded check `overlap_dense` under C10: true exactly when the
+    OFFSET-FREE address function is a bijection onto [0, N)); what follows from it here: the highest offset-free address
+    is N - 1.  Nothing is promised about the offset - is_dense does not look at it"""
+    tsl = local["self"]
+    dense = fresh_int("is_dense") == 1
+    hi, n = _extent(tsl)
+    assume(implies(dense, hi == n - 1))
+    return dense
+
+
+def self_overlaps_contract(local):
+    """self_overlaps(): two elements share an address (an arbitrary answer is a sound abstraction here)"""
+    return fresh_int("self_overlaps") == 1
+
+
+@contract
+class AllocOpRewrite_layout_predicates_contract(AllocOpRewrite_contract):
+    """AllocOpRewrite's postcondition again for static tiled-strided layouts, with is_dense / self_overlaps available to
+    the code through their contracts: a size computation that special-cases dense (gap-free) layouts must still include
+    the layout OFFSET and the element size"""
+    shapes = [sh for sh in ALLOC_SHAPES if sh["layout"] == "tsl" and sh["dyn"] == "static" and sh["rank"] * sh["depth"] <= 2]
+    quick = lambda sh: True
+    native = False
+    modular = {"snaxc.ir.tsl.tiled_strided_layout.TiledStridedLayout.is_dense": is_dense_contract,
+               "snaxc.ir.tsl.tiled_strided_layout.TiledStridedLayout.self_overlaps": self_overlaps_contract}
 
 
 # =====================================================================================
@@ -343,3 +386,68 @@ class MiniMallocate_lifetimes_contract:
 
     def canary(sh, a, ret):
         check("canary: both buffers always get the same address", len([e for e in ret if e[0] == "replace_op"]) == 0)
+
+
+# =====================================================================================
+# SnaxAllocatePass.apply: ONE address-assigning scheme per module
+# =====================================================================================
+import xdsl.pattern_rewriter as xpr  # noqa: E402
+from xdsl.dialects.builtin import ModuleOp  # noqa: E402
+
+from snaxc.accelerators.acc_context import AccContext  # noqa: E402
+
+
+class AllocCtxV(AccContext):
+    def __init__(self, mem):
+        self._mem = mem
+
+    def get_memory(self, name):
+        return self._mem
+
+
+def flatten_patterns(p):
+    if isinstance(p, xpr.GreedyRewritePatternApplier):
+        return [q for x in p.rewrite_patterns for q in flatten_patterns(x)]
+    return [p]
+
+
+@contract
+class SnaxAllocatePass_one_scheme_contract:
+    """StaticAllocs (bump pointer starting at the memory's start) and MiniMallocate (solver over the whole window) each
+    own the address window of a memory: their contracts (StaticAllocs_contract's invariant 'every range handed out so far
+    lies below the bump pointer', MiniMallocate's disjointness of live buffers) only compose to C11 if at most ONE of them
+    hands out addresses in a module.  Call-site condition on the pass driver, for every mode and both outcomes of the
+    auto detection"""
+    target = "snaxc.transforms.snax_allocate.SnaxAllocatePass.apply"
+    shapes = [dict(mode=m, static=s) for m in ("dynamic", "static", "minimalloc", "auto") for s in (True, False)]
+    native = False
+    total = True
+    permissive = True
+    compare_ret = False
+
+    def args(sh, sym):
+        xpr.WALKER_LOG.clear()
+        mem = SnaxMemory(StringAttr("L1"), sym.int("capacity", 0), sym.int("start", 0))
+        size = arith.ConstantOp.from_int_and_width(sym.int("size", 0), IndexType()).result if sh["static"] else mk_opresult(sym.int("size", 0), IndexType())
+        alloc = snax.Alloc(0, size, [], StringAttr("L1"), IntegerAttr(64, IntegerType(64)))
+        ops = ([size.owner] if sh["static"] else []) + [alloc]
+        module = ModuleOp(ops)
+        return [sa.SnaxAllocatePass(sh["mode"]), AllocCtxV(mem), module]
+
+    def ensures(sh, a, ret):
+        p, ctx, module = a
+        runs = list(xpr.WALKER_LOG)
+        pats = [q for pat, _ in runs for q in flatten_patterns(pat)]
+        check("every pattern run goes over the module handed to the pass", all(tgt is module for _, tgt in runs))
+        assigning = [q for q in pats if isinstance(q, (sa.StaticAllocs, sa.MiniMallocate))]
+        check("at most one address-assigning pattern (StaticAllocs / MiniMallocate) is let loose on the module", len(assigning) <= 1)
+        want = dict(dynamic=sa.DynamicAllocs, static=sa.StaticAllocs, minimalloc=sa.MiniMallocate)
+        if sh["mode"] != "auto":
+            check(f"mode {sh['mode']}: its own pattern, once", len(pats) == 1 and type(pats[0]) is want[sh["mode"]])
+        elif sh["static"]:
+            check("auto, all allocation sizes known: static addresses (one scheme)", len(pats) == 1 and isinstance(pats[0], (sa.StaticAllocs, sa.MiniMallocate)))
+        else:
+            check("auto, some allocation size only known at run time: the run-time allocator, no static addresses", len(pats) == 1 and type(pats[0]) is sa.DynamicAllocs)
+
+    def canary(sh, a, ret):
+        check("canary: no pattern is ever run", len(xpr.WALKER_LOG) == 0)
